@@ -123,6 +123,9 @@ func main() {
 	runGen("accessors", []string{"Accessors.lean"}, func() { genAccessors(pkgs["message"], pkgs["frame"]) })
 	runGen("conversions", []string{"Conversions.lean", "conversions.json"}, func() { genConversions(pkgs["datacodec"]) })
 	runGen("crcfacts", []string{"CrcFacts.lean"}, func() { genCrcFacts(pkgs["crc"], pkgs["segment"]) })
+	runGen("gofn_time", []string{"GoFnTime.lean"}, func() { genGoFn(pkgs, "Time") })
+	runGen("gofn_vint", []string{"GoFnVint.lean"}, func() { genGoFn(pkgs, "Vint") })
+	runGen("gofn_crc", []string{"GoFnCrc.lean"}, func() { genGoFn(pkgs, "Crc") })
 	runGen("inflight", []string{"InflightFacts.lean", "ConnFacts.lean", "DispatchFacts.lean", "TimerFacts.lean"}, func() { genInflightFacts(pkgs["client"]); genConnFacts(pkgs["client"]); genDispatchFacts(pkgs["client"]); genTimerFacts(pkgs["client"]) })
 	runGen("deepcopy", []string{"DeepCopy.lean", "deepcopy.json"}, func() { genDeepCopy(pkgs) })
 	runGen("effects", []string{"Effects.lean", "effects.json"}, func() { genEffects(pkgs) })
